@@ -574,7 +574,15 @@ class Factory:
                     for f in problem_features
                 )
                 if optimality_guarantee is not None:
-                    assert issubclass(EngineClass, OneshotPlannerMixin)
+                    assert issubclass(
+                        EngineClass,
+                        (
+                            OneshotPlannerMixin,
+                            ReplannerMixin,
+                            PortfolioSelectorMixin,
+                            PlanRepairerMixin,
+                        ),
+                    )
                     x.append(str(EngineClass.satisfies(optimality_guarantee)))
                 elif anytime_guarantee is not None:
                     assert issubclass(EngineClass, AnytimePlannerMixin)
